@@ -788,9 +788,15 @@ func (c *FuncCtx) execFor(st *State, x *ast.ForStmt) []outcome {
 	li := c.newLoopInfo(x, x.Pos())
 	inv, dec := c.loopSpec(li.ord)
 	c.needVariant(li, dec)
+	// ghost iteration counter cnt_N
+	cntName := fmt.Sprintf("cnt_%d", li.ord)
+	li.extra[cntName] = &Val{T: tInt, S: "0", Sort: "Int"}
 	c.checkInv(st, li, inv, "init")
 	h := st.clone()
 	c.havocLoop(h, li)
+	cnt := c.fresh(cntName, "Int")
+	h.assume(app("<=", "0", cnt))
+	li.extra[cntName] = &Val{T: tInt, S: cnt, Sort: "Int"}
 	c.assumeInv(h, li, inv)
 	v0 := c.variantTerms(h, li, dec)
 	var outs []outcome
@@ -803,10 +809,19 @@ func (c *FuncCtx) execFor(st *State, x *ast.ForStmt) []outcome {
 	if cond.S != tFalse {
 		b := h.clone()
 		b.assume(cond.S)
-		for _, o := range c.execBlock(b, x.Body.List) {
+		c.ghostStack = append(c.ghostStack, li.extra)
+		bodyOuts := c.execBlock(b, x.Body.List)
+		c.ghostStack = c.ghostStack[:len(c.ghostStack)-1]
+		liNext := *li
+		liNext.extra = map[string]*Val{}
+		for kk, vv := range li.extra {
+			liNext.extra[kk] = vv
+		}
+		liNext.extra[cntName] = &Val{T: tInt, S: mkAdd(cnt, "1"), Sort: "Int"}
+		for _, o := range bodyOuts {
 			switch o.kind {
 			case oNext, oContinue:
-				c.finishIteration(o.st, li, inv, dec, v0, func(s *State) *State {
+				c.finishIteration(o.st, &liNext, inv, dec, v0, func(s *State) *State {
 					if x.Post != nil {
 						po := c.execStmt(s, x.Post)
 						return po[0].st
